@@ -30,7 +30,7 @@ def run(tier, replay=None):
     rc = replay_transitions(c, exe, trans, finish=False)
     # 3. impl -> spec: seeded random walks validated against the specification
     tr = os.path.join(wd, "walks.ndjson")
-    walks, length = (64, 400) if thorough else (16, 200)
+    walks, length = (80, 400) if thorough else (20, 200)
     p = vlib.run([exe, "record", str(vlib.seed()), str(walks), str(length), tr], check=True)
     validate_trace(c, tr, None, finish=False)
     c.cov["traces_validated_against_impl"] = c.cov.get("traces_validated_against_impl", 0) + walks
